@@ -119,7 +119,13 @@ Step(s, ev, stub) ==
                              ELSE s1
                    IN [s2 EXCEPT !.winners = Tail(@), !.nbest = @ + 1]
          ELSE s
-    [] nm = "uci.loop.exit" -> [AddFail(s, "c16.driver-exited", s.mayexit) EXCEPT !.exited = TRUE]
+    [] nm = "uci.loop.exit" ->
+         \* the loop ends without having been told to (quit, end of input, a malformed line): the driver is gone,
+         \* and a go that is being processed or still awaits its answer will never be answered
+         LET s1 == AddFail(s, "c16.driver-exited", s.mayexit)
+             s2 == AddFail(s1, "c04.go-unanswered-driver-exited",
+                           s.mayexit \/ ~(s.pending \/ (s.busy /\ s.lastcmd = "go" /\ GoOK(s.lastline))))
+         IN [s2 EXCEPT !.exited = TRUE]
     [] nm = "harness.eof" -> [s EXCEPT !.mayexit = TRUE]
     [] nm = "harness.final-run" -> [s EXCEPT !.final = TRUE]
     [] nm = "uci.loop.idle" -> [s EXCEPT !.busy = FALSE]
